@@ -392,14 +392,14 @@ def register(E):
         raise ValueError('not a string: ' + repr(v))
     E.as_str = as_str
 
-    @model(r'^core::str::<impl str>::len$|^core::slice::<impl \[T\]>::len$|^std::string::String::len$|^std::vec::Vec::len$')
+    @model(r'^core::str::<impl str>::len$|^core::slice::<impl \[(?:T|u8)\]>::len$|^std::string::String::len$|^std::vec::Vec::len$')
     def _(E, st, callee, a, m):
         v = d(st, a[0])
         if isinstance(v, Seq): return [(T, I(len(v.items), 64))]
         if isinstance(v, Obj) and v.kind == 'Vec': return [(T, I(len(v.data), 64))]
         return [(T, I(as_str(st, v).ln, 64))]
 
-    @model(r'^core::str::<impl str>::is_empty$|^core::slice::<impl \[T\]>::is_empty$|^std::string::String::is_empty$|^std::vec::Vec::is_empty$')
+    @model(r'^core::str::<impl str>::is_empty$|^core::slice::<impl \[(?:T|u8)\]>::is_empty$|^std::string::String::is_empty$|^std::vec::Vec::is_empty$')
     def _(E, st, callee, a, m):
         v = d(st, a[0])
         if isinstance(v, Seq): return [(T, z3.BoolVal(len(v.items) == 0))]
@@ -857,15 +857,21 @@ def register(E):
         st.note(('assume', 'to_lowercase/to_uppercase: ASCII-only input'))
         return [(allascii, r), (z3.Not(allascii), Panic('OUT-OF-MODEL: Unicode case mapping on non-ASCII input'))]
 
+    @model(r'^core::slice::ascii::<impl \[u8\]>::eq_ignore_ascii_case$|^core::str::<impl str>::eq_ignore_ascii_case$')
+    def _(E, st, callee, a, m):
+        x, y = as_str(st, a[0]), as_str(st, a[1])
+        n = min(cap(E, x), cap(E, y))
+        lo = lambda b: z3.If(z3.And(z3.UGE(b, 65), z3.ULE(b, 90)), b + 32, b)
+        return [(T, z3.And(x.ln == y.ln, *[z3.Implies(in_window(j, x), lo(x.at(j)) == lo(y.at(j))) for j in range(n)]))]
+
     @model(r'^<char as std::str::FromStr>::from_str$')
     def _(E, st, callee, a, m):
-        # exact for one ASCII byte; empty / longer ASCII text is an error; non-ASCII text is outside the model
+        # Ok(c) iff the text is exactly one character (the text is well-formed UTF-8 by the type's invariant)
         s = as_str(st, a[0])
-        one = z3.And(s.ln == 1, z3.ULT(s.at(0), 0x80))
-        ascii2 = z3.And(z3.UGE(s.ln, 2), z3.ULT(s.at(0), 0x80))
+        l = char_len_at(s, bv(0))
+        one = z3.And(z3.UGE(s.ln, 1), s.ln == l)
         e = Opaque('ParseCharError')
-        return [(one, ok(I(z3.ZeroExt(24, s.at(0)), 32))), (z3.Or(s.ln == 0, ascii2), err(e)),
-                (z3.And(s.ln != 0, z3.UGE(s.at(0), 0x80)), Panic('OUT-OF-MODEL: char::from_str on non-ASCII text'))]
+        return [(one, ok(I(decode_char_at(s, bv(0)), 32))), (z3.Not(one), err(e))]
 
     @model(r'^core::str::<impl str>::(trim|trim_start|trim_end)$')
     def _(E, st, callee, a, m):
